@@ -255,7 +255,7 @@ def _compress_cases(tier):
          expect=lambda c: ["no-temporary-debris", "block-exception-leaves-target-untouched", "archive-written"])
 def k_compress(ctx):
     kind, name, fmt, tmpdir = ctx.case
-    env = _Env(ctx)
+    env = _Env(ctx, max_faults=2 if ctx.tier == "thorough" else 1)
     fs = env.fs
     existed = bool(ctx.bool("target_exists_before"))
     body_raises = bool(ctx.bool("body_raises"))
@@ -307,7 +307,7 @@ def _decompress_cases(tier):
          + (["yields-the-original-bytes"] if c[4] == "good" else ["corrupt-archive-raises"]))
 def k_decompress(ctx):
     fmt, name, tmpdir, target, quality = ctx.case
-    env = _Env(ctx)
+    env = _Env(ctx, max_faults=2 if ctx.tier == "thorough" else 1)
     fs = env.fs
     other = "bz2" if fmt != "bz2" else "gz"
     fs.files[name] = _archive(fmt, name) if quality == "good" else _archive(other, name)
@@ -404,10 +404,12 @@ BOUNDS = {"quick": {"dispatch (CrossHair)": "every file name (any characters) of
                                        "fault per run at any of the I/O calls (temp creation, open, compressor open, copy start, copy "
                                        "middle, zip write, zip member open) x the caller's block raising or not x target existing or not; "
                                        "good and corrupt archives"},
-          "thorough": {"dispatch (CrossHair)": "names of length <= 7"}}
+          "thorough": {"dispatch (CrossHair)": "names of length <= 7",
+                       "fault schedules": "up to two injected faults per run (no second fault point is reachable: after the first "
+                                          "fault only the cleanup calls run, so the path count equals the one-fault tier)"}}
 OUTSIDE = ["that the bytes round-trip through the real codecs and that the stored file is a genuine gz/bz2/zip/xz archive "
            "(codec C code; the model file system stores tagged chunks)", "faults of the cleanup calls themselves (os.unlink, "
-           "TemporaryDirectory cleanup)", "two or more faults in one run"]
+           "TemporaryDirectory cleanup)", "three or more faults in one run"]
 STUBS = ["ModelFS + model tempfile / open / shutil.copyfileobj / os.unlink / compressor classes inside typhon.files.utils "
          "(the keys of the real format table are kept, so a format missing there is missing in the model)"]
 ASSUMPTIONS = ["cleanup calls do not fail", "file names handed to compress/decompress are the concrete ones listed in the cases; "
